@@ -254,7 +254,7 @@ func (e *Exec) run() {
 	e.cur = nil
 	w0 := e.W(s)
 	e.axiom("(>= " + w0 + " 1)")
-	for _, c := range []string{"0.0", "1.0", "(- 1.0)"} {
+	for _, c := range []string{"0.0", "1.0", "(- 1.0)", "0.5", "2.0"} {
 		e.fl.addPoint(e, "0", c)
 	}
 	e.entryW = w0
@@ -541,6 +541,9 @@ func (e *Exec) finish(vars map[string]Value) {
 	if nres == 1 {
 		env.vars["result"] = results[0]
 	}
+	for _, ga := range e.Con.GhostRet {
+		e.ghostAssign(exit, env, ga)
+	}
 	e.cover("cover.exit", "", e.reach)
 	// case split of the postconditions over the dynamic type of interface-valued expressions
 	type splitCase struct{ guard, label string }
@@ -631,20 +634,25 @@ func (e *Exec) ghostAssign(s *State, env *Env, ga *GhostAssign) {
 	}
 	cur := &Env{e: e, vars: env.vars, st: s, old: e.entry, pkgPath: env.pkgPath}
 	t := cur.resolveTypeIn(g.Ty, g.PkgPath)
-	sort := slotsOf(t)[0].Sort
-	comp := "G|" + ga.Name
-	old := e.compTerm(s, comp, sort)
 	val := e.evalSpecSafe(cur, ga.Val, e.Con, "ghostdo")
-	var nw string
 	if ga.Key != nil {
+		sort := slotsOf(t)[0].Sort
+		comp := "G|" + ga.Name
+		old := e.compTerm(s, comp, sort)
 		gm := t.Underlying().(*GhostMap)
 		k := cur.coerceKey(e.evalSpecSafe(cur, ga.Key, e.Con, "ghostdo"), gm.K)
-		nw = "(store " + old + " " + k + " " + cur.coerce(val, gm.V).S[0] + ")"
-	} else {
-		nw = cur.coerce(val, t).S[0]
+		nw := "(store " + old + " " + k + " " + cur.coerce(val, gm.V).S[0] + ")"
+		e.frameCheck(comp, "")
+		e.setComp(s, comp, sort, nw)
+		return
 	}
-	e.frameCheck(comp, "")
-	e.setComp(s, comp, sort, nw)
+	v := cur.coerce(val, t)
+	for i, sd := range slotsOf(t) {
+		comp := "G|" + ga.Name + sd.Path
+		e.compTerm(s, comp, sd.Sort)
+		e.frameCheck(comp, "")
+		e.setComp(s, comp, sd.Sort, v.S[i])
+	}
 }
 
 // ifaceContractsFor returns the interface-method contracts this function has to honour.
